@@ -1,15 +1,22 @@
 /-
   C06 — check detection agrees with the rules for both sides.
-  Status: the full equivalence `isCheck_iff` (with Spec.inCheck on the abstracted position) is NOT
-  proved; it is decided on every run by the check lattice (king x attacker kind x attacker square x
-  blocker, both colours, plus every pair of adjacent kings) and all playout positions against
-  Spec.inCheck.  Proved here: the ray walk stops at the first non-empty square and only passes
+  Status: PROVED at full strength for the model (`check_detection_is_the_rules`): for every mailbox
+  with the sentinel ring in place, no sentinel on the 64 inner squares and the two king caches
+  pointing at the one king of each colour, `isCheck p c = Spec.inCheck (abs p) c` for both colours —
+  Spec.inCheck being the rules of movement on the 8x8 board (sliders stopped by the first piece,
+  pawns diagonally forward, knights, adjacent king).  The proof goes through the declarative mailbox
+  relation `AttackedM` (Proofs/Check: `isCheckCords_iff`, any probed square — also the castling
+  transit squares) and the bridge Proofs/CheckSpec (`attacked_iff_AttackedM`).  The tie of the model
+  to the Rust code is the correspondence run (check lattice: king x attacker kind x attacker square
+  x blocker, both colours, every pair of adjacent kings, all playout positions).
+  Also kept: the ray walk stops at the first non-empty square and only passes
   empty squares (`ray_walk_passes_only_empties`), so a slider behind a blocker is never seen; the
   probes are side-symmetric in the sense that an adjacent enemy king always gives check, for both
   colours and for any probed square (`adjacent_king_gives_check`); a knight / pawn on a probe
   square gives check (`knight_probe_hit`, `pawn_probe_hit`).
 -/
-import Walleye.Proofs.Targets
+import Walleye.Proofs.CheckSpec
+import Walleye.Proofs.Start
 namespace Walleye
 
 /-- every square the walk passes before it stops is empty -/
@@ -73,5 +80,43 @@ theorem pawn_probe_hit_white (p : Pos) (sq : Point)
   simp only [Bool.or_eq_true, decide_eq_true_eq, Color.opp]
   left; right
   exact hp
+
+/-- C06, full statement on the model -/
+theorem check_detection_is_the_rules (p : Pos) (hr : RingOK p.board) (hi : InnerOK p.board)
+    (hk : KingsOK p) (c : Color) : isCheck p c = Spec.inCheck (abs p) c :=
+  isCheck_eq_inCheck p hr hi hk c
+
+/-- the attack test on ANY probed square (castling transit squares included) is the declarative
+    attack relation of the mailbox -/
+theorem probe_is_attack_relation (p : Pos) (hr : RingOK p.board) (c : Color) (t : Point) (ht : OnBoard t) :
+    isCheckCords p c t = true ↔
+      AttackedM p.board c.opp t (match c with | .white => p.bk | .black => p.wk) :=
+  isCheckCords_iff p hr c t ht
+
+/-- the premises are satisfiable: the initial position meets them (finite kernel computation) -/
+theorem start_premises : RingOK startPosition.board ∧ InnerOK startPosition.board ∧ KingsOK startPosition := by
+  have ring := start_ring
+  refine ⟨ring, ?_, ?_⟩
+  · intro r c hob
+    unfold OnBoard at hob
+    have key : ∀ r : Fin 12, ∀ c : Fin 12, (2 ≤ r.val ∧ r.val ≤ 9 ∧ 2 ≤ c.val ∧ c.val ≤ 9) →
+        startPosition.board.get r.val c.val ≠ .boundary := by decide +kernel
+    exact key ⟨r, by simp only at hob; omega⟩ ⟨c, by simp only at hob; omega⟩ hob
+  · intro c
+    constructor
+    · cases c <;> decide +kernel
+    · intro r k h
+      have hob := ring r k (by rw [h]; simp)
+      unfold OnBoard at hob
+      simp only at hob
+      cases c
+      · have key : ∀ r : Fin 12, ∀ k : Fin 12,
+            startPosition.board.get r.val k.val = .full ⟨.white, .king⟩ → (⟨r.val, k.val⟩ : Point) = kingPt startPosition .white := by
+          decide +kernel
+        exact key ⟨r, by omega⟩ ⟨k, by omega⟩ h
+      · have key : ∀ r : Fin 12, ∀ k : Fin 12,
+            startPosition.board.get r.val k.val = .full ⟨.black, .king⟩ → (⟨r.val, k.val⟩ : Point) = kingPt startPosition .black := by
+          decide +kernel
+        exact key ⟨r, by omega⟩ ⟨k, by omega⟩ h
 
 end Walleye
